@@ -43,8 +43,13 @@ class FileCtx(VerifContext):
         self.log = []
         self.lines = None
         cc = self.call_contracts
-        cc["naunet.species.Species.set_known_elements"] = lambda ip, a, k: self.log.append(("set_known_elements", a[-1]))
-        cc["naunet.species.Species.set_known_pseudoelements"] = lambda ip, a, k: self.log.append(("set_known_pseudoelements", a[-1]))
+        # abstract process-wide tables: whatever an earlier network left behind (chosen by the entry), updated by the setters and
+        # visible through the getters
+        self.tables = {"e": ["?"], "p": ["?"]}
+        cc["naunet.species.Species.set_known_elements"] = lambda ip, a, k: (self.tables.__setitem__("e", list(a[-1])), self.log.append(("set_known_elements", a[-1])))[1]
+        cc["naunet.species.Species.set_known_pseudoelements"] = lambda ip, a, k: (self.tables.__setitem__("p", list(a[-1])), self.log.append(("set_known_pseudoelements", a[-1])))[1]
+        cc["naunet.species.Species.known_elements"] = lambda ip, a, k: list(self.tables["e"])
+        cc["naunet.species.Species.known_pseudoelements"] = lambda ip, a, k: list(self.tables["p"])
         cc["naunet.network.Network._add_reaction"] = self.c_add
         self.loop_specs[(Q, "ln, line")] = LoopSpec("loop:lines", "_i", [
             ("length(trace) == _i", P),
@@ -57,7 +62,7 @@ class FileCtx(VerifContext):
         self.trace_env = env
 
     def open_file(self, interp, args, kwargs):
-        self.log.append(("open", args[0], self.snapshot()))
+        self.log.append(("open", args[0], self.snapshot(), (list(self.tables["e"]), list(self.tables["p"]))))
         return FakeFile(self.lines, self.log)
 
     def snapshot(self):
@@ -114,6 +119,9 @@ def entry(it):
     net = Network.__new__(Network)
     E, PE = (["H", "C"], ["CR"]) if with_tables else ([], [])
     net._known_elements, net._known_pseudo_elements = E, PE
+    # the tables in force when the call starts: another network's, or partly the same as this network's
+    dirty = it.choose(3, "tables-in-force") if with_tables else 0
+    ctx.tables = {"e": [["X"], list(E), ["X"]][dirty], "p": [["Y"], ["Y"], list(PE)][dirty]}
     tag = f"{fmt}/{'with' if with_tables else 'without'}-tables"
     cls = ctx.rclass
     saved = {k: cls.__dict__.get(k, None) for k in KROME_DEFAULTS} if fmt == "krome" else {}
@@ -137,8 +145,9 @@ def entry(it):
                 it.fail(name, P, f"{tag}: {detail}")
         iopen = kinds.index("open") if "open" in kinds else len(kinds)
         if with_tables:
-            ok("order/element-tables-installed-before-the-file-is-read",
-               ("set_known_elements", E) in log[:iopen] and ("set_known_pseudoelements", PE) in log[:iopen], f"calls before open: {log[:iopen]!r}")
+            at_open = log[iopen][3] if iopen < len(log) else None
+            ok("order/element-tables-installed-before-the-file-is-read", at_open == (E, PE),
+               f"tables in force when the file is read: {at_open!r}, the network's are {(E, PE)!r} (in force at the call: case {dirty}); calls before open: {log[:iopen]!r}")
         if fmt == "krome":
             snap = log[iopen][2] if iopen < len(log) else None
             ok("order/per-file-directive-state-is-default-when-the-file-is-read", snap == KROME_DEFAULTS, f"state at open(): {snap!r}")
@@ -183,13 +192,21 @@ def entry_points(it):
     net._species_kwargs = {}
     net.reaction_list, net._skipped_reactions = [], []
     from pyvc import setmodel
-    net._reactants, net._products = setmodel.empty("Species"), setmodel.empty("Species")
+    if which == 2:
+        # the required-species setter is specified for a network that already holds arbitrary reactions
+        SetS_ = z3.ArraySort(z3.IntSort(), z3.BoolSort())
+        net._reactants, net._products = setmodel.SSet("Species", z3.Const("held_reactants", SetS_)), setmodel.SSet("Species", z3.Const("held_products", SetS_))
+    else:
+        net._reactants, net._products = setmodel.empty("Species"), setmodel.empty("Species")
     net._allowed_species, net._required_species = [], []
     name = ["add_reaction", "allowed_species.setter", "required_species.setter", "where_species"][which]
     PP = ("C17", "C04", "C07", "C14")
-    parsed = []
-    ctx.call_contracts["naunet.species.Species"] = lambda ip, a, k: (parsed.append(len(ctx.log)), SObj("Species", z3.IntVal(len(parsed))))[1]
-    ctx.call_contracts["naunet.network.Network._add_reaction"] = lambda ip, a, k: (parsed.append(len(ctx.log)), (set(), set(), None))[1]
+    parsed, at_parse = [], []
+    dirty = it.choose(3, "tables-in-force")
+    ctx.tables = {"e": [["X"], list(E), ["X"]][dirty], "p": [["Y"], ["Y"], list(PE)][dirty]}
+    snap = lambda: at_parse.append((list(ctx.tables["e"]), list(ctx.tables["p"])))
+    ctx.call_contracts["naunet.species.Species"] = lambda ip, a, k: (snap(), parsed.append(len(ctx.log)), SObj("Species", z3.IntVal(len(parsed))))[2]
+    ctx.call_contracts["naunet.network.Network._add_reaction"] = lambda ip, a, k: (snap(), parsed.append(len(ctx.log)), (set(), set(), None))[2]
     try:
         if which == 0:
             it.call_function(Network.add_reaction, [net, ("some kida line", "kida")], {})
@@ -205,14 +222,22 @@ def entry_points(it):
     except PyRaise as e:
         it.fail(f"entry/{name}/no-exception", PP, f"{type(e.exc).__name__}: {e.exc}")
         return
+    if which == 2:
+        # ensures: the extra species are exactly the ones named, in order - whatever the network holds at that moment
+        got = net._required_species
+        ok2 = isinstance(got, list) and len(got) == 1 and isinstance(got[0], SObj) and got[0].cls == "Species"
+        if ok2:
+            it.prove(z3.BoolVal(True), f"entry/{name}/stores-exactly-the-named-species", PP)
+        else:
+            it.fail(f"entry/{name}/stores-exactly-the-named-species", PP, f"required_species = ['H'] stored {got!r}")
     first = min(parsed) if parsed else len(ctx.log)
     before = ctx.log[:first]
-    ok = ("set_known_elements", E) in before and ("set_known_pseudoelements", PE) in before
+    ok = bool(at_parse) and all(t == (E, PE) for t in at_parse)
     if ok:
         it.prove(z3.BoolVal(True), f"entry/{name}/both-tables-installed-before-names-are-parsed", PP)
     else:
         it.fail(f"entry/{name}/both-tables-installed-before-names-are-parsed", PP,
-                f"network tables elements={E} pseudo={PE}; calls before the first name is parsed: {before!r}")
+                f"network tables elements={E} pseudo={PE}; tables in force when names are parsed: {at_parse[:2]!r} (case {dirty}); calls before: {before!r}")
     if not parsed:
         it.fail(f"entry/{name}/reaches-the-parser", PP, "no species name was parsed (contract harness out of date)")
 
